@@ -248,7 +248,8 @@ def execute(case):
             # the row index rotates over default / shifted range / datetime (labels are positional whatever the index: C05, last clause of C16)
             which = (n + p + int(case.get("ignore", False))) % 3
             index = [None, pd.RangeIndex(40, 40 + n), pd.date_range("2021-03-01", periods=n, freq="D")][which]
-            df = pd.DataFrame(X, index=index)
+            # integral readings may arrive in an integer dtype (case["xdtype"]): the savings are those of the same numbers as float64
+            df = pd.DataFrame(X.astype(case["xdtype"]) if case.get("xdtype") else X, index=index)
             if (n + p) % 2:
                 # labelled columns; the frame used after fit holds the same numbers in the same positions under labels in another
                 # order (reported columns are positions of the frame that is passed, whatever it or the training frame is called)
@@ -387,7 +388,19 @@ def run(tier="quick", seed=0, repo="/repo"):
             case = random_case(rng, n, pmax)
             nt, summ = check_case(rec, case, stats)
             rec.case(fingerprint(case), nt, summ if nt and rec.evaluations % 397 == 0 else None)
-    return rec.result(RULE, f"random ({per_n} cases per n): 3<=n<=12, 2<=p<={pmax}, 2<=m<=min(n,5), m<=M<=8; L2Saving / L2Cost(0) on "
+    # integral readings held in narrow integer dtypes, large enough for sums / squares to leave the type's range if they were formed in it
+    for dt, scale in (("int32", 40000.0), ("int16", 400.0), ("int64", 4e9)):
+        done = 0
+        while done < (6 if tier == "quick" else 30):
+            case = random_case(rng, int(rng.integers(6, 13)), pmax)
+            if case["api"] != "MVCAPA" or case["saving"]["kind"] not in ("l2", "l2cost"):
+                continue
+            case["saving"]["X"] = (np.round(np.asarray(case["saving"]["X"], dtype=float) * scale)).tolist()
+            case["xdtype"] = dt
+            nt, summ = check_case(rec, case, stats)
+            rec.case(fingerprint(case), nt, None)
+            done += 1
+    return rec.result(RULE, f"integral data as int32 / int16 / int64 (6 MVCAPA cases each); random ({per_n} cases per n): 3<=n<=12, 2<=p<={pmax}, 2<=m<=min(n,5), m<=M<=8; L2Saving / L2Cost(0) on "
                       "planted dense/sparse/single-column/point patterns and table savings; collective and point penalty in "
                       "{dense,sparse,intermediate,combined,user}, scales {0,.1,.3,1,2} (+50 for points); MVCAPA "
                       "fit/predict/transform (with and without ignore_point_anomalies; row index default / shifted / dates; in half of the cases the frame used "
